@@ -339,7 +339,9 @@ type writeResult struct {
 	closeErr error
 }
 
-func (w *writeResult) anyErr() bool { return w.ctorErr != nil || w.writeErr != nil || w.closeErr != nil }
+func (w *writeResult) anyErr() bool {
+	return w.ctorErr != nil || w.writeErr != nil || w.closeErr != nil
+}
 
 func writeOut(r *core.Run, a tink.StreamingAEAD, pt, aad []byte, chunks []int, failAt int, partial bool, afterClose int, p streamref.Params) *writeResult {
 	dev := simio.NewDevice(failAt, partial)
